@@ -44,6 +44,8 @@ def make_pool(rng, n_lo=2, n_hi=12, dup_p=0.12):
 
     def nm():
         cnt[0] += 1
+        if rng.random() < 0.06:
+            return rng.choice(['e1 ', ' e1', 'motor ', 'dup ', 'E1'])          # different strings: NOT duplicates of 'e1' / 'motor' / 'dup'
         return f'e{cnt[0]}' if rng.random() > dup_p else rng.choice(['dup', 'e1', 'motor'])
     pool = [mo.DCMotor(name='motor', no_load_speed=un.AngularSpeed(2000, 'rpm'), maximum_torque=un.Torque(10, 'mNm'), inertia_moment=J)]
     modules = [None, None, un.Length(1, 'mm'), un.Length(2, 'mm'), un.Length(0.1, 'cm'), un.Length(0.002, 'm'), un.Length(2, 'cm'), un.Length(1, 'cm')]
